@@ -25,7 +25,7 @@ func (c *Conn) handleAuthenticate(tag string, dec *imapwire.Decoder) error {
 			return dec.Err()
 		}
 		var err error
-		initialResp, err = internal.DecodeSASL(initialRespStr)
+		initialResp, err = decodeSASL(initialRespStr)
 		if err != nil {
 			return err
 		}
